@@ -37,8 +37,8 @@ def gen_history(rng, model, g):
     h = model.h
     ops = []
     for _ in range(L):
-        k = gen.pick(rng, ["IK", "IK", "IK_out", "IK_protect", "FK", "FK", "FK_out", "FK_reverse", "move", "spin", "validate", "validate_do",
-                           "invjac", "static", "carry", "randomPos", "getters"])
+        k = gen.pick(rng, ["IK", "IK", "IK_out", "IK_protect", "FK", "FK", "FK_out", "FK_out", "FK_out", "FK_reverse", "move", "spin", "validate", "validate_do",
+                           "invjac", "static", "carry", "randomPos", "randomPos", "getters"])
         if k in ("IK", "IK_protect"):
             ops.append({"op": "IK", "rel": splib.gen_rel_pose(rng, h).tolist(), "protect": k == "IK_protect"})
         elif k == "IK_out":
